@@ -39,6 +39,8 @@ MACROS = (
     # a parameter named like the let that a header alias (c = q[k]) was declared with: the alias must keep its
     # header meaning inside the body, whatever the parameter is bound to
     A.macro("m6", ("k",), A.seq(A.gate("g", "c"), A.gate("h", A.item("q", "k"), 2.0))),
+    # a register parameter named like the alias that is passed for it, indexed inside
+    A.macro("m7", ("b",), A.seq(A.gate("g", A.item("b", 1)))),
 )
 
 LEAVES = (
@@ -54,6 +56,8 @@ LEAVES = (
     A.gate("m5", "c", 0, "x"),
     A.gate("m6", 2),
     A.gate("h", A.item("q", "n"), "n"),  # textually identical to a statement of m5, where n is a parameter
+    A.gate("m7", "b"),
+    A.gate("m4", 1, 0),  # a second call of m4 with other numbers
 )
 
 
